@@ -222,7 +222,17 @@ def d3_8(ctx):
         raising = init is not None and any(isinstance(r, ast.Raise) for k in cls.mro() if "__init__" in k.methods for r in walk(k.methods["__init__"]))
         if not raising:
             continue
-        h = in_try_with_handler(call, fi.node, {"RequestError", "PycommError"})
+        def contained(fn_node, site, owner, depth=0):
+            """Under a handler for RequestError in its own function, or - for a private method - at every place the class calls it."""
+            if in_try_with_handler(site, fn_node, {"RequestError", "PycommError"}) is not None:
+                return True
+            if depth > 3 or owner is None or not fn_node.name.startswith("_") or fn_node.name.startswith("__"):
+                return False
+            callers = [(m_, c_) for k_ in ctx.model.subclasses(owner) for m_ in k_.methods.values() if m_ is not fn_node for c_ in walk(m_)
+                       if isinstance(c_, ast.Call) and attr_path(c_.func) == f"self.{fn_node.name}"]
+            return bool(callers) and all(contained(m_, c_, owner, depth + 1) for m_, c_ in callers)
+
+        h = True if contained(fi.node, call, fi.cls) else None
         ctx.check(h is not None, ckey(fi, f"ctor-contained:{cls.name}"), call, f"{cls.name}(...) is constructed under a handler for its RequestError", f"{cls.name}.__init__ can raise RequestError but this construction is outside any handler: one bad request aborts the whole call")
     # T-NULL: EnumMap.get(...) dereferenced without a preceding None test
     for c in pk:
